@@ -17,7 +17,8 @@ def handle : Wire.Handler := fun op a => do
     -- explicit heap + root address: Clone at pointer level (YtkModel/Heap.lean)
     let h ← HeapWire.getHeap a
     let x ← Wire.getNat a "x"
-    pure (HeapWire.result h [x] (Heap.clone h x))
+    HeapWire.result a h [x] (Heap.clone h x)
+      [("writes", "afterOrigWrites"), ("writes2", "afterCloneWrites")] false
   | _ => throw s!"C05: unknown op {op}"
 
 end Ytk.C05
